@@ -64,7 +64,7 @@ s=s.replace(old,"""        let (compat_errors, _) = self.check_version_compatibi
         if compat_errors.is_empty() || true {""",1); open(p,"w").write(s)
 PY
 run set-version-ignores-errors
-# 5 (extra) the text enum check of fix 3fe05dc removed again
+# 5 (extra) the text enum check of fix dba6870 removed again
 python3 - "$F" <<'PY'
 import sys; p=sys.argv[1]; s=open(p).read()
 old="            if let Some(value_spec) = elemtype_new.chardata_spec() {"
